@@ -882,3 +882,28 @@ Proof.
   split; [split; [exact o2dup_cfg_wf|vm_compute; reflexivity]|].
   split; [vm_compute; reflexivity|]. eexists. split; [vm_compute; reflexivity|]. cbn. repeat split.
 Qed.
+
+(* the classes of SpecTime.v are reachable (hand-made observed traces): an upload whose Do returns ok with the
+   2.31 that just arrived, 3700 units after its start: class 10 inside a request deadline of 9000, class 11
+   without deadline (transfer timeout 3600), no class with a request deadline of 2000 (the caller is overdue);
+   and class 12: a loss-free script of 60 deliveries (budget 4 * 6) whose last delivery still emits a block *)
+Definition reach_cfg : cfg := Cfg 0 1152 0 1152 [X 0 2 7 0 5 64 None] [R 11 5 false 42] [].
+Definition reach_cont : pm := PM Continue 7 (Some (0, 1, true)) None None None None None [] 0 0.
+Definition reach_blk : pm := PM 2 7 (Some (0, 0, true)) None (Some 64) None None None [(11, 0)] 16 0.
+Definition reach_es : list tev := [Ev (Start 0); Age 3700; Ev (Deliver 0)].
+Definition reach_os : list obs :=
+  [Ob 2 None (Some (true, reach_blk)) [] 0 [] [1;0;0;0] 0;
+   Ob 2 None None [] 0 [] [1;0;0;0] 0;
+   Ob 0 (Some reach_cont) None [reach_cont] 0 [(0, 0)] [0;0;0;0] 0].
+Definition reach_long_es : list tev := Ev (Start 0) :: repeat (Ev (Deliver 0)) 60.
+Definition reach_long_os : list obs :=
+  Ob 2 None (Some (true, reach_blk)) [] 0 [] [1;0;0;0] 0 ::
+  repeat (Ob 1 (Some reach_blk) (Some (false, reach_cont)) [] 0 [] [1;0;0;1] 0) 60.
+
+Lemma spec_time_classes_reachable :
+  c04_class_t reach_cfg [(0%nat, 9000)] reach_es reach_os (untimed reach_es) = 10%N /\
+  c04_class_t reach_cfg [] reach_es reach_os (untimed reach_es) = 11%N /\
+  c04_class_t reach_cfg [(0%nat, 2000)] reach_es reach_os (untimed reach_es) = 0%N /\
+  c04_class_t reach_cfg [] reach_long_es reach_long_os (untimed reach_long_es) = 12%N /\
+  c04_class_t reach_cfg [] (firstn 20 reach_long_es) (firstn 20 reach_long_os) (untimed (firstn 20 reach_long_es)) = 0%N.
+Proof. repeat split; vm_compute; reflexivity. Qed.
